@@ -13,7 +13,7 @@ LIN_TIMES = (0, 1, 1.5, 4, 9, 10)
 DT_TIMES = (_dt.datetime(2020, 1, 3, 12, 0), _dt.datetime(2020, 1, 3, 18, 30, 15), _dt.date(2020, 1, 9),
             _dt.datetime(2020, 1, 20, 23, 59, 59, 999000), _dt.datetime(2020, 1, 31, 0, 0), _dt.datetime(2020, 2, 2, 6, 45))
 WIDTHS = (20, 55)
-TEXTS = (None, "ab", "<&>\"é")
+TEXTS = (None, "a%b", "<&>\"é")
 ENGINE = ({}, {"maxPos": 100}, {"maxPos": 70, "algorithm": "simple"})
 SIZES = (
     {"initialWidth": 400, "initialHeight": 400, "layerGap": 60},
